@@ -25,10 +25,19 @@ type c05Scenario struct {
 	// PartialFirst > 0: a first connection on which the client writes one record of that many bytes,
 	// the server reads only 10 of them, both sides close; the transfer then runs on the next connection
 	PartialFirst int
+	// RestartAfter > 0: that long after the connection is up the relay forgets both mailboxes
+	// (a relay restart); the endpoints must re-create them and carry on
+	RestartAfter time.Duration
+	// WriteDeadline > 0: every Write gets this deadline; a Write that fails with a timeout is
+	// retried with the same bytes up to 5 times (a stalled relay makes the first attempts time out)
+	WriteDeadline time.Duration
+	// FaultsAfterConnect: the fault plan (and FaultUntil) starts when the secured connection is up
+	FaultsAfterConnect bool
 }
 
 type c05Result struct {
 	ConnectErr string
+	Stuck      string
 	HalfPaired bool // the first handshake completed on the client only: the known C11 finding, not a C05 matter
 	Tries      int
 	Got        [2][]byte // bytes read by server / by client
@@ -52,10 +61,14 @@ func runC05(sc *c05Scenario) *c05Result {
 		errAt[k] = true
 	}
 	total := 0
+	armed := false
 	relay.Fault = func(op, sid string, n int) RelayFault {
 		fmu.Lock()
 		defer fmu.Unlock()
 		total++
+		if sc.FaultsAfterConnect && !armed {
+			return RelayFault{}
+		}
 		if time.Since(start) > sc.FaultUntil {
 			return RelayFault{}
 		}
@@ -79,7 +92,12 @@ func runC05(sc *c05Scenario) *c05Result {
 		res.ConnectErr = err.Error()
 		return res
 	}
-	defer st.Shutdown()
+	abandon := false
+	defer func() {
+		if !abandon {
+			st.Shutdown()
+		}
+	}()
 	st.ReuseNoise = true // one NoiseGrpcConn per side for the whole session, as with gRPC credentials
 	if sc.PartialFirst > 0 {
 		s0, c0, _ := st.ConnectRetry(5)
@@ -98,6 +116,19 @@ func runC05(sc *c05Scenario) *c05Result {
 		res.HalfPaired = st.CliData.HandshakePattern().Name == mailbox.KK && st.SrvData.HandshakePattern().Name != mailbox.KK
 		return res
 	}
+	if sc.RestartAfter > 0 {
+		sid := st.CurSID
+		a, b := mailbox.GetSID(sid, true), mailbox.GetSID(sid, false)
+		time.AfterFunc(sc.RestartAfter, func() {
+			relay.DeleteBox(sidKey(a[:]))
+			relay.DeleteBox(sidKey(b[:]))
+		})
+	}
+	fmu.Lock()
+	if sc.FaultsAfterConnect {
+		armed, start = true, time.Now()
+	}
+	fmu.Unlock()
 	ends := [2]SecureConn{cli, srv} // writer of direction d is ends[d], reader is ends[1-d]
 	var wg sync.WaitGroup
 	var mu sync.Mutex
@@ -116,9 +147,22 @@ func runC05(sc *c05Scenario) *c05Result {
 				if sc.Idle > 0 && i == len(sc.Writes[d])/2 {
 					time.Sleep(sc.Idle)
 				}
-				if _, err := ends[d].Conn.Write(all[off : off+n]); err != nil {
+				var err error
+				for attempt := 0; attempt < 6; attempt++ {
+					if sc.WriteDeadline > 0 {
+						ends[d].Mailbox.SetWriteDeadline(time.Now().Add(sc.WriteDeadline))
+					}
+					_, err = ends[d].Conn.Write(all[off : off+n])
+					if err == nil || sc.WriteDeadline == 0 || !strings.Contains(err.Error(), "timeout") {
+						break
+					}
+					time.Sleep(sc.WriteDeadline)
+				}
+				if err != nil {
+					// what the reader may legitimately have is what was written successfully
 					mu.Lock()
 					res.WriteErr[d] = err.Error()
+					res.Sent[d] = all[:off]
 					mu.Unlock()
 					return
 				}
@@ -135,7 +179,11 @@ func runC05(sc *c05Scenario) *c05Result {
 				res.ReadSizes[1-d] = sizes
 				mu.Unlock()
 			}()
-			ends[1-d].Mailbox.SetReadDeadline(time.Now().Add(90 * time.Second))
+			rdl := 90 * time.Second
+			if sc.WriteDeadline > 0 {
+				rdl = 35 * time.Second // a writer may give up visibly; do not wait long for what will not come
+			}
+			ends[1-d].Mailbox.SetReadDeadline(time.Now().Add(rdl))
 			for len(got) < len(all) {
 				n, err := ends[1-d].Conn.Read(buf)
 				if n > len(buf) {
@@ -162,7 +210,21 @@ func runC05(sc *c05Scenario) *c05Result {
 			mu.Unlock()
 		}()
 	}
-	wg.Wait()
+	allDone := make(chan struct{})
+	go func() { wg.Wait(); close(allDone) }()
+	select {
+	case <-allDone:
+	case <-time.After(150 * time.Second):
+		// a Write (no deadline) or a Read (deadline long past) is blocked for good: the transfer
+		// neither completes nor fails; leave the wedged stack behind
+		mu.Lock()
+		res.Stuck = fmt.Sprintf("after 150 s a Write or Read is still blocked: read %d/%d and %d/%d bytes, read errors %q, write errors %q",
+			len(res.Got[1]), len(res.Sent[0]), len(res.Got[0]), len(res.Sent[1]), res.ReadErr, res.WriteErr)
+		mu.Unlock()
+		res.Took = time.Since(start)
+		abandon = true
+		return res
+	}
 	res.Took = time.Since(start)
 	cli.Mailbox.Close()
 	srv.Mailbox.Close()
@@ -236,6 +298,20 @@ func c05Scenarios() []*c05Scenario {
 		scs = append(scs, &c05Scenario{Name: fmt.Sprintf("partial-read-then-reconnect-%d", n), Seed: 950 + i,
 			Writes: [2][]int{{50, 3000}, {70, 9}}, ReadBuf: [2]int{32768, 4096}, PartialFirst: n})
 	}
+	// the relay restarts (forgets the mailboxes) while a transfer is paused half-way
+	for i, d := range []time.Duration{1500 * time.Millisecond, 4 * time.Second}[:pick(1, 2)] {
+		scs = append(scs, &c05Scenario{Name: fmt.Sprintf("relay-restart-%v", d), Seed: 960 + i,
+			Writes: [2][]int{{100, 5000, 70, 4000}, {300, 17, 6000, 9}}, ReadBuf: [2]int{32768, 4096}, Idle: 2 * d, RestartAfter: d})
+	}
+	// write deadlines shorter than a relay stall: the first attempts of a Write time out and are retried
+	for i, n := range []int{24, 40}[:pick(1, 2)] {
+		w := make([]int, n)
+		for k := range w {
+			w[k] = 1000
+		}
+		scs = append(scs, &c05Scenario{Name: fmt.Sprintf("write-deadline-%d", n), Seed: 970 + i,
+			Writes: [2][]int{w, {9}}, ReadBuf: [2]int{32768, 4096}, DropPct: 100, FaultUntil: 5 * time.Second, FaultsAfterConnect: true, WriteDeadline: time.Second})
+	}
 	// idle periods longer than the keepalive interval (server pings after 5 s, client after 7 s) in
 	// the middle of a transfer, without relay faults
 	for i, idle := range []time.Duration{6500 * time.Millisecond, 9 * time.Second, 16 * time.Second}[:pick(2, 3)] {
@@ -267,11 +343,13 @@ func TestC05(t *testing.T) {
 					var res *c05Result
 					p, msg := safely(func() { res = runC05(sc) })
 					mu.Lock()
-					faulty := sc.DropPct > 0 || sc.DelayMs > 0 || len(sc.StreamErrs) > 0 || sc.Idle > 0 || sc.PartialFirst > 0
+					faulty := sc.DropPct > 0 || sc.DelayMs > 0 || len(sc.StreamErrs) > 0 || sc.Idle > 0 || sc.PartialFirst > 0 || sc.RestartAfter > 0 || sc.WriteDeadline > 0
 					r.Case(sc.Name, faulty, fmt.Sprintf("drop=%v/delay=%v/stream-errs=%v/idle=%v/second-connection=%v", sc.DropPct > 0, sc.DelayMs > 0, len(sc.StreamErrs) > 0, sc.Idle > 0, sc.PartialFirst > 0))
 					switch {
 					case p:
 						r.Violate("C05/panic", msg, sc)
+					case res.Stuck != "":
+						r.Violate("C05/transfer-neither-completes-nor-fails", res.Stuck, sc)
 					case res.ConnectErr != "" && res.HalfPaired:
 						// one defect, one alarm: the pairing handshake lost its last message (relay fault) and the two
 						// sides are now at different rendezvous; that is C11's finding half-paired-after-lost-act3
@@ -292,7 +370,7 @@ func TestC05(t *testing.T) {
 						}
 						// the framing of the byte stream into Read results is the model's
 						for d := 0; d < 2; d++ {
-							if len(res.Got[1-d]) == len(res.Sent[d]) && res.ReadErr[1-d] == "" {
+							if len(res.Got[1-d]) == len(res.Sent[d]) && res.ReadErr[1-d] == "" && res.WriteErr[d] == "" {
 								r.Emit(fmt.Sprintf("stk.reads %d %s", sc.ReadBuf[1-d], joinInts(sc.Writes[d])), rleInts(res.ReadSizes[1-d]))
 							}
 						}
